@@ -104,6 +104,18 @@ func TestVerifC06Server(t *testing.T) {
 		if i%25 == 24 {
 			setup()
 		}
+		if st := m.API.State(); st != pilosa.ClusterStateNormal {
+			// an accepted cluster message (e.g. a well-formed ResizeInstruction or ClusterStatus) may
+			// legitimately change the cluster state; that is not what this check judges. Start afresh.
+			r.Count("cluster-state-changed-by-accepted-message", 1)
+			if err := m.Reopen(); err != nil {
+				t.Fatalf("reopen: %v", err)
+			}
+			setup()
+			if st := m.API.State(); st != pilosa.ClusterStateNormal {
+				t.Fatalf("server does not return to NORMAL after restart: %s", st)
+			}
+		}
 		kind := rng.Intn(10)
 		switch {
 		case kind < 6:
